@@ -420,6 +420,7 @@ pub fn run(ctx: &mut Ctx) -> Result<RunOut, Violation> {
         "C14" => return run_c14(ctx),
         "C15" => return run_c15(ctx),
         "C12" if ctx.tape.chance(1, 12) => return run_body_from(ctx),
+        "C20" if ctx.tape.chance(1, 24) => return run_body_from(ctx),
         _ => {}
     }
     let focus = ctx.focus;
@@ -884,6 +885,17 @@ fn check_c07(ctx: &mut Ctx, ex: &Exchange, sig: u64) -> Result<RunOut, Violation
         if ex.log.total >= ann as u128 {
             return violation("C07", "short-stream-full-length", format!("{}: {} bytes were delivered before the error, announced {ann}", describe(), ex.log.total));
         }
+    } else if f.kind == FaultKind::ErrorAtEnd && ex.fired.is_some() {
+        // The stream failed right after its last byte: a consumer that polls to the end (and
+        // every multipart body, which asks each part for its end) must see an error.
+        if ex.policy == Policy::Drain || ex.is_multipart() {
+            match ex.log.terminal.map(|i| &ex.log.steps[i].1) {
+                Some(Step::Err(_)) => {}
+                other => {
+                    return violation("C07", "failed-stream-ended-cleanly", format!("{}: the entity stream failed but the body drained to {:?}", describe(), other));
+                }
+            }
+        }
     } else if f.kind.is_long() {
         // Polling past the announced length yields an error, not data.
         if ex.policy == Policy::Drain || ex.is_multipart() {
@@ -1047,6 +1059,9 @@ fn check_c20(ctx: &mut Ctx, ex: &Exchange, sig: u64) -> Result<RunOut, Violation
         match s {
             Step::Panic(p) => return violation("C20", "panic-after-termination", format!("extra poll #{} panicked: {p}; {}", k + 1, describe())),
             Step::Data(n) if *n > 0 => return violation("C20", "data-after-termination", format!("extra poll #{} returned {n} bytes; {}", k + 1, describe())),
+            // A terminated body is fused: after an error or the end (None) it yields no frame at
+            // all, not even an empty one (after a mere end-of-stream *flag* an empty frame is fine).
+            Step::Data(_) if ex.log.terminal == Some(first) => return violation("C20", "frame-after-termination", format!("extra poll #{} returned a (zero-length) data frame; {}", k + 1, describe())),
             _ => {}
         }
     }
@@ -1060,11 +1075,12 @@ fn check_c20(ctx: &mut Ctx, ex: &Exchange, sig: u64) -> Result<RunOut, Violation
 
 fn run_body_from(ctx: &mut Ctx) -> Result<RunOut, Violation> {
     static S: &[u8] = b"static bytes \x00\xff";
+    let c20 = ctx.focus == "C20";
     let t = &mut ctx.tape;
     let n = [0usize, 1, 2, 17, 4096, 70_000][t.draw(6) as usize];
     let which = t.draw(5);
     let policy = gen_policy(t);
-    let overpoll = t.draw(3);
+    let overpoll = if c20 { 1 + t.draw(4) } else { t.draw(3) };
     let (body, want): (SimBody, usize) = match which {
         0 => (SimBody::empty(), 0),
         1 => (SimBody::from(S), S.len()),
@@ -1078,6 +1094,18 @@ fn run_body_from(ctx: &mut Ctx) -> Result<RunOut, Violation> {
     let log = drain(&mut body, &world, policy, overpoll, 2);
     reclaim(ctx, &world);
     ctx.ev("body_from", which as u64, log.total as u64);
+    if c20 {
+        // Terminated bodies stay terminated: the one-shot body after its end.
+        if let Some(p) = log.hint_panic.clone().or_else(|| log.steps.iter().find_map(|s| if let Step::Panic(p) = &s.1 { Some(p.clone()) } else { None })) {
+            return violation("C20", "panic-after-termination", format!("Body::from variant {which}: {p}"));
+        }
+        if log.data_after_terminal > 0 {
+            return violation("C20", "data-after-termination", format!("Body::from variant {which} of {want} bytes yielded data again after its end: {:?}", log.steps.iter().map(|s| &s.1).collect::<Vec<_>>()));
+        }
+        ctx.stats.grid.insert(format!("once|clean-end|extra={}", overpoll.min(4)));
+        ctx.stats.add("c20_extra_polls", overpoll as u64);
+        return Ok(RunOut { sig: mix(mix(0xB0D8, which as u64), overpoll as u64), nontrivial: true });
+    }
     ctx.stats.bump("c12_body_from_conversions");
     if let Some(p) = log.hint_panic.clone().or_else(|| log.steps.iter().find_map(|s| if let Step::Panic(p) = &s.1 { Some(p.clone()) } else { None })) {
         return violation("C12", "body-from-panic", p);
